@@ -22,6 +22,18 @@ import (
 
 func init() {
 	verifProps["C20"] = vh.Prop{List: c20List, Run: c20Run}
+	// downloader, processor and Close of the real Client under the controlled scheduler (hidden spec C20-e2e, run by C20's
+	// command): streams that end (ENDLIST), no fault, one Close whose single step is placed at every decision point - in
+	// particular while the end-of-stream marker travels from the downloader to the processor - under three canonical schedules
+	verifProps["C20-e2e"] = vh.Prop{List: func(tier string) []vh.Scenario {
+		var out []vh.Scenario
+		for _, sc := range c12Scens(tier) {
+			if sc.Fault == "none" && sc.Closers == 1 && sc.CloseInCB == 0 && (sc.Stream == "ts-va" || sc.Stream == "fmp4-va" || sc.Stream == "fmp4-v+a" || sc.Stream == "ts-big") {
+				out = append(out, vh.Scenario{Name: sc.name(), Weight: 30})
+			}
+		}
+		return out
+	}, Run: c12Run}
 }
 
 type c20Scen struct {
